@@ -15,7 +15,7 @@ pub fn run_draws(prop: &str, k: usize, rep: &mut Report, sink: &Sink) -> Result<
     for i in 0..k {
         let dir = format!("/tmp/verif-draw-{}-{}-{}", prop, std::process::id(), i);
         let _ = std::fs::remove_dir_all(&dir);
-        let st = Command::new("cargo").args(["build", "--release", "--offline"]).current_dir("/verif/mc").env("CARGO_TARGET_DIR", &dir).env("CARGO_NET_OFFLINE", "true").output().map_err(|e| format!("cannot run cargo: {}", e))?;
+        let st = Command::new("cargo").args(["build", "--release", "--offline"]).current_dir(format!("{}/mc", crate::report::verif_dir())).env("CARGO_TARGET_DIR", &dir).env("CARGO_NET_OFFLINE", "true").output().map_err(|e| format!("cannot run cargo: {}", e))?;
         if !st.status.success() {
             let _ = std::fs::remove_dir_all(&dir);
             return Err(format!("rebuild for draw {} failed: {}", i, String::from_utf8_lossy(&st.stderr).lines().rev().take(8).collect::<Vec<_>>().join(" | ")));
